@@ -261,7 +261,7 @@ func sexpEnd(s string, i int) int {
 
 func sym(name string) string {
 	for _, c := range name {
-		if !(c >= 'a' && c <= 'z' || c >= 'A' && c <= 'Z' || c >= '0' && c <= '9' || c == '_' || c == '!' || c == '.' || c == '$' || c == '@' || c == '#') {
+		if !(c >= 'a' && c <= 'z' || c >= 'A' && c <= 'Z' || c >= '0' && c <= '9' || c == '_' || c == '!' || c == '.' || c == '$' || c == '@') {
 			return "|" + strings.NewReplacer("|", "!", "\\", "!").Replace(name) + "|"
 		}
 	}
